@@ -59,6 +59,7 @@ fn real_main() {
         "lit" => lit::run(tier, seed, &mut out),
         "litctx" => lit::run_ctx(tier, seed, &mut out),
         "identctx" => lit::run_identctx(tier, seed, &mut out),
+        "pathctx" => lit::run_pathctx(tier, seed, &mut out),
         "path" => path::run(tier, seed, &mut out),
         "numlit" => total::numlit(tier, seed, &mut out),
         "total" => total::total(tier, seed, args.get(4).and_then(|s| s.parse().ok()).unwrap_or(0), &mut out),
